@@ -65,7 +65,7 @@ CLAIMS = {
              'derived class before base class (two ghost chain positions), each in its own class context with `this` bound to the object and stamped with that class, one scope deep, and restores context and scope depth (two nested loop contracts). '
              '(c) dispatch: in the member-call branch of eval, obj.m(...) runs the vtable entry of the receiver\'s DYNAMIC class for the signature found through the static class when that method is virtual, the statically found method otherwise, and super.m(...) runs the method found in the base of the static class (region member_dispatch; class / method / vtable lookups uninterpreted); for super.m(...) and Name.m(...) - where the target evaluates to a class reference - the named class\'s version runs, a super call keeps the object the running method was called on as receiver, a static call has none (region member_dispatch_super; found and repaired: super.m() passed no receiver). '
              '(d) construction order: in runConstructorChain the base-constructor chain (for the base class, the same object) runs exactly once and first, then this class\'s field initialisers exactly once, then the constructor body starting after an explicit super(...) statement; a failing phase stops the construction (region ctor_phases: the three phase statements in source order, three loop contracts, events on a ghost clock); an explicit super(args) runs the applicable base constructor of lowest conversion cost and fails when none or two cheapest apply (the specification\'s own argmin is kept as ghost state next to the code\'s choice). '
-             '(e) the run-time class table (unit CTAB): buildClassTable populates every class after the class it extends, so the layout / vtable a class inherits by copy is complete whatever the order of declaration (appendBaseFirst proved with its own contract as induction hypothesis; the populate loop proved against that contract; found and repaired: declaration-order population). (g) static fields (unit OBJM, findStaticFieldWithOwner as a whole function): the storage of a static field is that of the nearest class on the chain cls, base, ... that DECLARES it - one slot per declaring class, whichever subclass or object it is reached through (ghost chain position; loop contract). (f) vtable building (unit VTB): in the loop over a class\'s members, the vtable entry for a signature the class declares virtual / override is that class\'s own method with that signature and points to LIVE storage when the class is complete - a push_back on a std::vector bucket is modelled as possibly starting a new generation of the bucket (reallocation), on a std::deque never (found and repaired: vector buckets, so a class with two virtual overloads of one name crashed or dispatched wrongly).',
+             '(e) the run-time class table (unit CTAB): buildClassTable populates every class after the class it extends, so the layout / vtable a class inherits by copy is complete whatever the order of declaration (appendBaseFirst proved with its own contract as induction hypothesis; the populate loop proved against that contract; found and repaired: declaration-order population). (g) static fields (unit OBJM, findStaticFieldWithOwner as a whole function): the storage of a static field is that of the nearest class on the chain cls, base, ... that DECLARES it - one slot per declaring class, whichever subclass or object it is reached through (ghost chain position; loop contract). (f) vtable building (unit VTB): in the loop over a class\'s members, the vtable entry for a signature the class declares virtual / override is that class\'s own method with that signature, every virtual / override method of the class has its entry, and each entry points to LIVE storage when the class is complete - a push_back on a std::vector bucket is modelled as possibly starting a new generation of the bucket (reallocation), on a std::deque never (found and repaired: vector buckets, so a class with two virtual overloads of one name crashed or dispatched wrongly).',
         note=TB + 'exec / beginScope / endScope / the `this` binding are models with bodies that only record ghost events. NOT covered: what runs INSIDE the phases (runFieldInitialisers itself, the parameter-to-field copy of `= default` constructors, the implicit zero-argument base constructor choice), the copying of the base vtable itself, findMethod\'s candidate collection, static field INITIALISATION, generics, WHEN destroyObject is called '
              '(reference counting / cycle collector; observed: a constructor ending in `return this;` leaves a hidden reference in m_returnValue, so `destroy` of that object never runs its destructor), the candidate '
              'collection loops, and the stamping of a reference with its DECLARED class at declaration / parameter binding - observed defect: `A a = new Sub(); k.g(a)` runs g(Sub) although the analyser resolved g(A) (native oracle, label site.binding.*).',
